@@ -212,7 +212,7 @@ def _amend(pid, old, new):
     PROPS[pid]["level_text"] = PROPS[pid]["level_text"].replace(old, new, 1)
 
 _amend("C04", "so inside a frame ancestors come first. PARTIAL: monotonicity of round received along ancestry (across frames) and at-most-once commitment are decided by the oracle on the real code.",
-       "so inside a frame ancestors come first; for every insertion history of events with distinct ids into a node started from genesis no delivered block lists an event twice and no two delivered blocks share an event (every_event_committed_at_most_once: the received lists of the rounds stay duplicate-free and pairwise disjoint through every pass). On the operational model, for every insertion history of fresh events into a node started from genesis: every stored event has a Lamport timestamp, the parents it names are stored and their timestamps are strictly smaller, hence a proper ancestor always has a strictly smaller timestamp (lamport_increases_along_parents, lamport_respects_ancestry_operational); in any state satisfying that invariant (all reachable states and the intermediate states of the passes) an event of the sorted frame that is a proper ancestor of another comes first (frame_order_extends_ancestry, lamport_invariant_reachable_and_kept); and an event that has a round received has a round strictly below it (round_received_above_round). On the declarative model Babble.Dag (static set, compared with the Go code on every view): an ancestor has a strictly smaller Lamport timestamp and is received in the same or an earlier round.")
+       "so inside a frame ancestors come first; for every insertion history of events with distinct ids into a node started from genesis no delivered block lists an event twice and no two delivered blocks share an event (every_event_committed_at_most_once: the received lists of the rounds stay duplicate-free and pairwise disjoint through every pass). On the operational model, for every insertion history of fresh events into a node started from genesis: every stored event has a Lamport timestamp, the parents it names are stored and their timestamps are strictly smaller, hence a proper ancestor always has a strictly smaller timestamp (lamport_increases_along_parents, lamport_respects_ancestry_operational; lamport_respects_reachability states it with the reachability relation that C07 proves equal to the Go ancestor predicate); in any state satisfying that invariant (all reachable states and the intermediate states of the passes) an event of the sorted frame that is a proper ancestor of another comes first (frame_order_extends_ancestry, lamport_invariant_reachable_and_kept); and an event that has a round received has a round strictly below it (round_received_above_round). On the declarative model Babble.Dag (static set, compared with the Go code on every view): an ancestor has a strictly smaller Lamport timestamp and is received in the same or an earlier round.")
 _amend("C14", "signed only by strangers is refused however consistent internally (forged_set_refused);",
        "signed only by strangers is refused however consistent internally (forged_set_refused), in every state a node can reach from its configuration through join responses with any claimed peer list, consensus receipts, fast-forward responses and other messages (strangers_never_adopted, model Babble.Trust: the three sets only ever hold keys that were configured, put there by consensus, or members of the frame of an accepted response; tied to the code by the writer sets of core.peers / genesisPeers / validators and by join-then-fast-forward histories run on both sides);")
 _amend("C19", "Proof (Lean 4): sm_least, trusted_needs_more_than_third, two_supermajorities_intersect,",
